@@ -43,9 +43,19 @@ KINDS = {
     'obj':        ('FooObj*', 'object', 1, 'FooObj'),
     'variant':    ('GVariant*', 'variant', 1, 'GVariant'),
     'unres':      ('FooUnk*', 'unresolved', 1, None),
+    # the same values reached through local typedef aliases (typedef FooRec FooRecAlias; typedef FooRecAlias
+    # FooRecAlias2; typedef FooCb FooCbAlias; typedef FooEnum FooEnumAlias): same MUST rules as the direct spelling
+    'recal':      ('FooRecAlias*', 'rec', 1, None),
+    'recal2':     ('FooRecAlias2*', 'rec', 1, None),
+    'recalpp':    ('FooRecAlias**', 'rec', 2, None),
+    'cbal':       ('FooCbAlias', 'callback', 0, None),
+    'enumal':     ('FooEnumAlias', 'enum', 0, None),
 }
+# alias kind -> kind of the direct spelling (violation keys fold an alias kind into its base kind when both fail)
+ALIAS_OF = {'recal': 'rec', 'recal2': 'rec', 'recalpp': 'recpp', 'cbal': 'cb', 'enumal': 'enum'}
 KIND_ORDER = ['int', 'intp', 'str', 'cstr', 'any', 'rec', 'recpp', 'enum', 'list', 'hash', 'garray',
-              'ptrarray', 'bytearray', 'strv', 'cb', 'dnotify', 'obj', 'variant', 'unres']
+              'ptrarray', 'bytearray', 'strv', 'cb', 'dnotify', 'obj', 'variant', 'unres',
+              'recal', 'recal2', 'recalpp', 'cbal', 'enumal']
 CONTAINER_CATS = ('list', 'hash', 'garray', 'ptrarray', 'bytearray')
 
 CALLABLES = ['function', 'method', 'callback', 'vfunc', 'vfunc_inv', 'signal']
@@ -144,6 +154,10 @@ def support_decls():
         Struct('_FooRec', [Field('x', 'int')]),
         Enum('FooEnum', [('FOO_ENUM_A', 0), ('FOO_ENUM_B', 1)]),
         Callback('FooCb', 'void', [('int', 'a'), ('gpointer', 'user_data')]),
+        Typedef('FooRecAlias', 'FooRec'),
+        Typedef('FooRecAlias2', 'FooRecAlias'),
+        Typedef('FooCbAlias', 'FooCb'),
+        Typedef('FooEnumAlias', 'FooEnum'),
         Typedef('FooObj', 'struct _FooObj'),
         Typedef('FooObjClass', 'struct _FooObjClass'),
         Struct('_FooObj', [Field('parent_instance', 'GObject')]),
@@ -239,4 +253,4 @@ def execute(case, annotated):
 def c_text(case):
     decls, dump, bname, names = build(case)
     text, _ = render_block(case, True)
-    return text + '\n' + fake.c_of(decls[9:]) + '\n/* dump: %s */' % dump[dump.index('<class'):]
+    return text + '\n' + fake.c_of(decls[len(support_decls()):]) + '\n/* dump: %s */' % dump[dump.index('<class'):]
